@@ -170,7 +170,11 @@ def main(
 
     code = 0
     n_errors, n_notes, n_files = util.count_stats(messages)
-    if messages and n_notes < len(messages):
+    only_notes = n_notes == len(messages)
+    if options.output == "json":
+        # The severity is a field of each JSON line, count_stats() doesn't see it.
+        only_notes = all('"severity": "note"' in message for message in messages)
+    if messages and not only_notes:
         code = 2 if blockers else 1
     if options.error_summary:
         if n_errors:
